@@ -57,7 +57,7 @@ def run(rep, progs, tier):
         kinds = {}
         for (bid, bb), e in an.events.items():
             kinds.setdefault(e["kind"], []).append((bid, bb, sorted(e["pre"])))
-        for kind, floor in (("send:idle", 2), ("send:noidle", 1), ("send_list", 1), ("receive", 2)):   # tolerant of sites folded into one private helper
+        for kind, floor in (("send:idle", 1), ("send:noidle", 1), ("send_list", 1), ("receive", 2)):   # tolerant of sites folded into one private helper
             rep.floor("C05.discipline", "%s/%s sites" % (cfg, kind), len(kinds.get(kind, [])), floor)
         for kind, sites in sorted(kinds.items()):
             for bid, bb, pre in sites:
@@ -80,6 +80,9 @@ def run(rep, progs, tier):
         rep.sample({"summaries": {"%s %s" % (k[0].rsplit("::", 2)[-2], k[1]): sorted(map(str, v)) for k, v in list(an.summaries.items())[:6]}})
         # the loop's first action from Q is idle: root's first event
         first = [e for (bid, bb), e in an.events.items() if bid == an.coroutine_of(res["root"]).id and e["kind"] == "send:idle"]
+        # .. or the write sits in an async helper (`start_idling(..).await`): the loop starts with nothing outstanding (Q) and no
+        # iteration boundary is reached in Q, so `idle` was written on the way — the only step from Q to I
+        first = first or (bool(bnd) and all(k[0] != "Q" for k in bnd) and bool(kinds.get("send:idle")))
         rep.check(bool(first), "C05.discipline", cfg + "/idle on entry", fn_name(prog, res["root"]), "the loop does not start by issuing idle")
 
 
